@@ -4,7 +4,10 @@ use std::fmt;
 use std::ops::Deref;
 use std::pin::Pin;
 use std::ptr::NonNull;
+#[cfg(not(folo_verif_loom))]
 use std::sync::{Arc, Mutex};
+#[cfg(folo_verif_loom)]
+use loom::sync::{Arc, Mutex};
 
 use crate::{NEVER_POISONED, PooledMut, RawOpaquePoolThreadSafe, RawPooled, RawPooledMut};
 
